@@ -2,6 +2,7 @@ package rules
 
 import (
 	"go/token"
+	"go/types"
 	"strings"
 
 	"golang.org/x/tools/go/ssa"
@@ -233,4 +234,63 @@ func ruleTempNotListed(c *eng.Ctx) {
 		c.Check(stores == 0, rule, "local.tempFile:not-reassigned", g.Pos(), "the tempFile hook is not reassigned by non-test code (%d stores)", stores)
 	}
 	c.Floor(rule, 3, 3)
+}
+
+// ruleTempRemovedOnFailure (C36, "temporary files never appear in listings as repository
+// files"): the local backend lists whatever lies in a repository directory, so a temporary file
+// must not outlive a failed save. The deferred clean-up of Local.Save removes it on every path
+// on which the save's error is non-nil — whichever step failed, also the close and the rename,
+// after which the file is no longer open.
+func ruleTempRemovedOnFailure(c *eng.Ctx) {
+	const rule = "temp-removed-on-failure"
+	fn := c.NeedFn(rule, "internal/backend/local.(*Local).Save")
+	if fn == nil {
+		return
+	}
+	n := 0
+	for _, lit := range c.P.Lits(fn) {
+		removes := c.P.CallsTo(lit, "os.Remove")
+		if len(removes) == 0 {
+			continue
+		}
+		// it must be the deferred clean-up
+		deferred := false
+		for _, b := range fn.Blocks {
+			for _, in := range b.Instrs {
+				if d, ok := in.(*ssa.Defer); ok {
+					for _, o := range eng.Origins(d.Call.Value, nil) {
+						if mc, isMC := o.(*ssa.MakeClosure); isMC && mc.Fn == ssa.Value(lit) {
+							deferred = true
+						}
+					}
+				}
+			}
+		}
+		if !deferred {
+			continue
+		}
+		n++
+		c.Touch(lit)
+		isErr := func(v ssa.Value) bool {
+			ld, ok := v.(*ssa.UnOp)
+			if !ok || ld.Op != token.MUL {
+				return false
+			}
+			fv, ok := ld.X.(*ssa.FreeVar)
+			return ok && eng.IsErrorType(fv.Type().(*types.Pointer).Elem())
+		}
+		okEdges := eng.NilEdges(lit, isErr, true)
+		cut := eng.Union(eng.CallCut(removes...), eng.NewCut().AddEdges(okEdges...))
+		for _, r := range eng.Returns(lit) {
+			c.MustPass(rule, "Save:failed→temporary-file-removed", eng.Entry(lit), r, cut, "the save succeeded (err == nil), or os.Remove(temporary file) was called")
+		}
+		for _, rm := range removes {
+			okName := false
+			if call := eng.RootCall(eng.Arg(rm, 0)); call != nil && eng.MethodName(call) == "Name" {
+				okName = true
+			}
+			c.Check(okName, rule, "Save:removes-the-temporary-name", rm.Pos(), "what is removed is f.Name(), the temporary file")
+		}
+	}
+	c.Check(n == 1, rule, "Save:deferred-cleanup", fn.Pos(), "%d deferred clean-up closures that remove a file", n)
 }
